@@ -15,6 +15,9 @@ type Prop struct {
 	Run     func(c *explore.Check, thorough bool)
 	// Replay maps a scenario name to the scenario (for --replay).
 	Scenarios func(thorough bool) []*explore.Scenario
+	// RaceScenarios are the scenario bodies re-run free-running under -race (the only sampled
+	// ingredient; reported separately in evidence).
+	RaceScenarios func(thorough bool) []*explore.Scenario
 }
 
 var registry = map[string]*Prop{}
